@@ -937,7 +937,7 @@ pub fn apply<H: HX>(q: &mut AnyQ<H>, op: &Op, lk: Lookup) -> String {
             // every third dropped guard is dropped by UNWINDING out of the client's loop body (a panic in the client's own code
             // while the guard is alive, caught by the client): `Drop for IterMut` must rebuild then too.  Chosen from the program
             // text, so replays are exact; never while a fuse is armed (a second panic during unwinding aborts by Rust's rules).
-            let via_unwind = !*forget && !*late && prog.len() % 3 == 1 && FUSE.with(|f| f.get()) == 0 && CBFUSE.with(|f| f.get()) == 0
+            let via_unwind = UNWIND_DROPS.with(|u| u.get()) && !*forget && !*late && prog.len() % 3 == 1 && FUSE.with(|f| f.get()) == 0 && CBFUSE.with(|f| f.get()) == 0
                 && HKFUSE.with(|f| f.get()) == 0 && CLFUSE.with(|f| f.get()) == 0 && DRFUSE.with(|f| f.get()) == 0;
             let mut out = String::new();
             // addresses of everything yielded so far: two equal addresses = aliased `&mut`
